@@ -217,3 +217,201 @@ package raft
 //@   inline
 //@ func (*resp).getErr
 //@   inline
+
+// ---------------------------------------------------------------------------
+// configuration adoption on every node (C08, C11, C19)
+
+//@ ghost var closeRequested bool
+
+//@ func (*resolver).update
+//@   trusted
+//@   modifies contents(r.addrs)
+
+//@ func (*Raft).doClose
+//@   trusted
+//@   modifies closeRequested
+//@   ensures closeRequested
+
+//@ pure CfgCommitted(s *storage) bool = s.configs.Latest.Index == s.configs.Committed.Index
+
+//@ func (Configs).IsCommitted
+//@   inline
+
+//@ func (*Raft).setLatest
+//@   requires r.storage != nil && r.resolver != nil
+//@   modifies r.storage.configs.Latest, contents(r.resolver.addrs)
+//@   ensures [C08.set-latest] r.configs.Latest == config
+
+//@ func (*Raft).changeConfig
+//@   requires RaftWF(r) && r.resolver != nil
+//@   modifies r.leader, r.storage.configs.Committed, r.storage.configs.Latest, contents(r.resolver.addrs)
+//@   ensures [C08.adopt] r.configs.Latest == config && r.configs.Committed == old(r.configs.Latest)
+//@   ensures [C08.adopt-leader] r.leader == old(r.leader) || (r.leader == 0 && !IsVoter(config, old(r.leader)))
+
+//@ func (*Raft).commitConfig
+//@   requires RaftWF(r)
+//@   modifies r.leader, r.storage.configs.Committed
+//@   ensures [C08.commit] r.configs.Committed == r.configs.Latest && r.configs.Latest == old(r.configs.Latest)
+//@   ensures r.leader == old(r.leader) || r.leader == 0
+
+//@ func (*Raft).revertConfig
+//@   requires RaftWF(r) && r.resolver != nil
+//@   modifies r.storage.configs.Latest, contents(r.resolver.addrs)
+//@   ensures [C08.revert] r.configs.Latest == old(r.configs.Committed) && r.configs.Committed == old(r.configs.Committed)
+
+//@ func (*Raft).setCommitIndex
+//@   requires RaftWF(r)
+//@   modifies r.commitIndex, r.storage.configs.Committed, r.state, r.leader, closeRequested
+//@   ensures [C19.commit-set] r.commitIndex == index
+//@   ensures [C08.commit-on-cover] result0 == (!old(CfgCommitted(r.storage)) && old(r.configs.Latest.Index) <= index)
+//@   ensures [C08.commit-on-cover2] r.configs.Latest == old(r.configs.Latest) && (result0 ==> r.configs.Committed == r.configs.Latest) && (!result0 ==> r.configs.Committed == old(r.configs.Committed))
+//@   ensures [C11.self-demote-steps-down] result0 && old(r.state) == Leader && !IsVoter(r.configs.Latest, r.nid) ==> r.state == Follower && r.leader == 0
+//@   ensures [C11.leader-kept-or-cleared] r.leader == old(r.leader) || r.leader == 0
+//@   ensures [C11.state-otherwise-kept] !(result0 && old(r.state) == Leader && !IsVoter(r.configs.Latest, r.nid)) ==> r.state == old(r.state)
+//@   ensures [C11.shutdown-after-commit] closeRequested && !old(closeRequested) ==> result0 && r.shutdownOnRemove && !has(r.configs.Latest.Nodes, r.nid)
+
+//@ func (*Raft).canCommit
+//@   ensures [C02.follower-commit-rule] result0 == (req.ldrCommitIndex >= index && term == req.term && index > r.commitIndex)
+
+// ---------------------------------------------------------------------------
+// ghost view of the node's log (C02, C04, C06, C19):
+//   Log.gprev / Log.glast   : PrevIndex / LastIndex of the segmented log
+//   storage.gterm[i], gtyp[i]: term and type of entry i, gprev < i <= lastLogIndex
+//   storage.flushed          : every entry <= flushed has been flushed by Log.CommitN
+// ghost view of an entry stream on a connection (PA1):
+//   spos[rd]        : number of entries already decoded from reader rd
+//   sIdx/sTerm/sTyp : fields of the k-th entry of that stream
+
+//@ ghost field Log.gprev uint64
+//@ ghost field Log.glast uint64
+//@ ghost field storage.gterm map[uint64]uint64
+//@ ghost field storage.gtyp map[uint64]uint64
+//@ ghost field storage.flushed uint64
+//@ ghost var spos map[uint64]uint64
+//@ ghost func sIdx(uint64, uint64) uint64
+//@ ghost func sTerm(uint64, uint64) uint64
+//@ ghost func sTyp(uint64, uint64) uint64
+
+//@ pure LogWF(s *storage) bool = s.snaps != nil && s.log != nil && s.log.gprev <= s.snaps.index && s.snaps.index <= s.lastLogIndex && s.log.glast == s.lastLogIndex && s.flushed <= s.lastLogIndex && (s.lastLogIndex > s.snaps.index ==> s.lastLogTerm == s.gterm[s.lastLogIndex])
+//@ pure CfgWF(s *storage) bool = s.configs.Committed.Index <= s.configs.Latest.Index && s.configs.Latest.Index <= s.lastLogIndex
+//@ pure CfgEntry(s *storage, i uint64, t uint64) bool = i > s.snaps.index ==> i <= s.lastLogIndex && s.gtyp[i] == entryConfig && s.gterm[i] == t
+//@ pure CfgInLog(s *storage) bool = CfgEntry(s, s.configs.Latest.Index, s.configs.Latest.Term) && CfgEntry(s, s.configs.Committed.Index, s.configs.Committed.Term) && s.configs.Committed.Index <= s.configs.Latest.Index && forall(i, i > s.snaps.index && i <= s.lastLogIndex && i > s.configs.Committed.Index && i != s.configs.Latest.Index ==> s.gtyp[i] != entryConfig)
+//@ pure NodeInv(r *Raft) bool = RaftWF(r) && LogWF(r.storage) && CfgWF(r.storage) && r.snaps.index <= r.commitIndex && r.commitIndex <= r.lastLogIndex && r.resolver != nil && r.fsm != nil
+
+//@ func (*log.Log).PrevIndex
+//@   trusted
+//@   ensures result0 == l.gprev
+//@ func (*log.Log).LastIndex
+//@   trusted
+//@   ensures result0 == l.glast
+//@ func (*log.Log).ViewAt
+//@   trusted
+//@   requires [C03.view-bounds] lastIndex <= l.glast
+//@   ensures prevIndex <= lastIndex && prevIndex >= l.gprev ==> result0 != nil && result0.gprev == prevIndex && result0.glast == lastIndex
+
+//@ func (*storage).getEntry
+//@   trusted
+//@   requires s.log != nil
+//@   modifies all(e)
+//@   maypanic OpError
+//@   ensures result0 == nil ==> e.index == index && e.term == s.gterm[index] && e.typ == s.gtyp[index]
+//@   ensures s.log.gprev < index && index <= s.lastLogIndex ==> result0 == nil
+
+//@ func (*storage).mustGetEntry
+//@   requires s.log != nil && s.log.gprev < index && index <= s.lastLogIndex
+//@   modifies all(e)
+//@   maypanic OpError
+//@   ensures [C04.get] e.index == index && e.term == s.gterm[index] && e.typ == s.gtyp[index]
+
+//@ func (*storage).appendEntry
+//@   trusted
+//@   requires [C04.append-contiguous] e.index == s.lastLogIndex + 1
+//@   requires s.log != nil
+//@   modifies s.lastLogIndex, s.lastLogTerm, s.gterm, s.gtyp, s.log.glast
+//@   maypanic OpError
+//@   ensures s.lastLogIndex == e.index && s.lastLogTerm == e.term && s.log.glast == e.index
+//@   ensures s.gterm[e.index] == e.term && s.gtyp[e.index] == e.typ
+//@   ensures forall(i, i != e.index ==> s.gterm[i] == old(s.gterm[i]) && s.gtyp[i] == old(s.gtyp[i]))
+
+//@ func (*storage).removeGTE
+//@   trusted
+//@   requires [C02.truncate-above-snapshot] s.log != nil && s.log.gprev < index && index <= s.lastLogIndex
+//@   modifies s.lastLogIndex, s.lastLogTerm, s.flushed, s.log.glast
+//@   maypanic OpError
+//@   ensures s.lastLogIndex == index - 1 && s.lastLogTerm == prevTerm && s.log.glast == index - 1 && s.flushed == index - 1
+
+//@ func (*storage).commitLog
+//@   trusted
+//@   requires s.log != nil
+//@   modifies s.flushed
+//@   maypanic OpError
+//@   ensures s.flushed >= old(s.flushed) && s.flushed <= s.lastLogIndex && (n <= s.lastLogIndex ==> s.flushed >= n) && (n >= s.lastLogIndex ==> s.flushed == s.lastLogIndex)
+
+//@ func (*Raft).applyCommitted
+//@   nilable ne
+//@   requires r.storage != nil && r.fsm != nil && r.log != nil && r.log.glast == r.lastLogIndex
+//@   requires [C03.apply-view] r.commitIndex <= r.lastLogIndex
+
+// ---------------------------------------------------------------------------
+// AppendEntries handler (C02, C04, C06, C08, C19)
+
+//@ func isEntryBuffered
+//@   trusted
+
+//@ func (*entry).decode
+//@   trusted
+//@   modifies all(e), spos
+//@   ensures result0 == nil ==> spos[ref(r)] == old(spos[ref(r)]) + 1 && e.index == sIdx(ref(r), old(spos[ref(r)])) && e.term == sTerm(ref(r), old(spos[ref(r)])) && e.typ == sTyp(ref(r), old(spos[ref(r)]))
+//@   ensures forall(q, q != ref(r) ==> spos[q] == old(spos[q]))
+
+//@ func (*Config).decode
+//@   trusted
+//@   modifies all(c)
+//@   ensures result0 == nil ==> c.Index == e.index && c.Term == e.term
+
+//@ func (*Raft).onAppendEntriesRequest$1
+//@   loop 1 invariant true
+
+//@ func (*Raft).onAppendEntriesRequest
+//@   requires NodeInv(r) && c.bufr != nil && c.rwc != nil
+//@   requires r.flushed == r.lastLogIndex
+//@   requires [PA1.consecutive] forall(j, spos[ref(c.bufr)] <= j && j < spos[ref(c.bufr)] + req.numEntries ==> sIdx(ref(c.bufr), j) == req.prevLogIndex + 1 + (j - spos[ref(c.bufr)]))
+//@   requires [PA1.committed-prefix] forall(j, spos[ref(c.bufr)] <= j && j < spos[ref(c.bufr)] + req.numEntries && sIdx(ref(c.bufr), j) <= r.commitIndex && sIdx(ref(c.bufr), j) > r.snaps.index ==> sTerm(ref(c.bufr), j) == r.gterm[sIdx(ref(c.bufr), j)])
+//@   requires CfgInLog(r.storage)
+//@   requires [PA1.config-prefix] forall(j, spos[ref(c.bufr)] <= j && j < spos[ref(c.bufr)] + req.numEntries && sIdx(ref(c.bufr), j) <= r.configs.Committed.Index && sIdx(ref(c.bufr), j) > r.snaps.index ==> sTerm(ref(c.bufr), j) == r.gterm[sIdx(ref(c.bufr), j)])
+//@   requires [PA1.no-overflow] req.prevLogIndex + req.numEntries < 18446744073709551615
+//@   modifies *
+//@   maypanic OpError
+//@   ensures [C05.term-monotone] r.term >= old(r.term)
+//@   ensures [C01.step-down] req.term >= old(r.term) ==> r.term == req.term && r.state == Follower && (r.leader == req.src || r.leader == 0)
+//@   ensures [C17.stale-ignored] req.term < old(r.term) ==> result0 != success && r.term == old(r.term) && r.state == old(r.state) && r.leader == old(r.leader) && r.commitIndex == old(r.commitIndex) && r.lastLogIndex == old(r.lastLogIndex)
+//@   ensures [C19.commit-monotone] r.commitIndex >= old(r.commitIndex)
+//@   ensures [C19.nodeinv] result0 != unexpectedErr ==> LogWF(r.storage) && r.snaps.index <= r.commitIndex && r.commitIndex <= r.lastLogIndex
+//@   ensures [C04.consistency-check] result0 == success && req.prevLogIndex > r.snaps.index ==> req.prevLogIndex <= old(r.lastLogIndex) && old(r.gterm[req.prevLogIndex]) == req.prevLogTerm
+//@   ensures [C04.entries-stored] result0 == success ==> forall(j, old(spos[ref(c.bufr)]) <= j && j < old(spos[ref(c.bufr)]) + old(req.numEntries) && sIdx(ref(c.bufr), j) > r.snaps.index ==> sIdx(ref(c.bufr), j) <= r.lastLogIndex && r.gterm[sIdx(ref(c.bufr), j)] == sTerm(ref(c.bufr), j))
+//@   ensures [C02.prefix-untouched] forall(i, i <= req.prevLogIndex ==> r.gterm[i] == old(r.gterm[i])) && (result0 == success ==> r.lastLogIndex >= req.prevLogIndex || r.lastLogIndex >= old(r.lastLogIndex))
+//@   ensures [C02.truncate-only-at-conflict] result0 == success && forall(j, old(spos[ref(c.bufr)]) <= j && j < old(spos[ref(c.bufr)]) + old(req.numEntries) && sIdx(ref(c.bufr), j) > r.snaps.index && sIdx(ref(c.bufr), j) <= old(r.lastLogIndex) ==> sTerm(ref(c.bufr), j) == old(r.gterm[sIdx(ref(c.bufr), j)])) ==> r.lastLogIndex >= old(r.lastLogIndex) && forall(i, i <= old(r.lastLogIndex) ==> r.gterm[i] == old(r.gterm[i]))
+//@   ensures [C08.follower-adopt-revert] result0 == success ==> CfgInLog(r.storage)
+//@   ensures [C06.follower-flush-before-ack] result0 == success ==> r.flushed == r.lastLogIndex
+//@   ensures [C02.follower-commit-rule] r.commitIndex > old(r.commitIndex) ==> r.commitIndex <= req.ldrCommitIndex && r.commitIndex <= r.lastLogIndex && r.gterm[r.commitIndex] == req.term && r.commitIndex <= r.flushed
+//@   loop 1 invariant RaftWF(r) && LogWF(r.storage) && r.resolver != nil && r.fsm != nil && r.snaps.index <= r.commitIndex && r.commitIndex <= r.lastLogIndex
+//@   loop 1 invariant r.term == req.term && r.state == Follower && (r.leader == req.src || r.leader == 0) && r.term >= old(r.term)
+//@   loop 1 invariant r.commitIndex >= old(r.commitIndex)
+//@   loop 1 invariant c.bufr != nil && c.rwc != nil
+//@   loop 1 invariant spos[ref(c.bufr)] + req.numEntries == old(spos[ref(c.bufr)]) + old(req.numEntries) && req.numEntries <= old(req.numEntries)
+//@   loop 1 invariant index == req.prevLogIndex + (old(req.numEntries) - req.numEntries)
+//@   loop 1 invariant forall(j, spos[ref(c.bufr)] <= j && j < spos[ref(c.bufr)] + req.numEntries ==> sIdx(ref(c.bufr), j) == index + 1 + (j - spos[ref(c.bufr)]))
+//@   loop 1 invariant index > r.snaps.index ==> index <= r.lastLogIndex && r.gterm[index] == term
+//@   loop 1 invariant syncLog || r.flushed == r.lastLogIndex
+//@   loop 1 invariant old(req.numEntries) == 0 ==> !syncLog
+//@   loop 1 invariant r.commitIndex > old(r.commitIndex) ==> r.commitIndex <= req.ldrCommitIndex && r.gterm[r.commitIndex] == req.term && r.commitIndex <= r.flushed && r.commitIndex <= req.prevLogIndex
+//@   loop 1 invariant req.prevLogIndex > r.snaps.index ==> req.prevLogIndex <= old(r.lastLogIndex) && old(r.gterm[req.prevLogIndex]) == req.prevLogTerm
+//@   loop 1 invariant forall(i, i <= req.prevLogIndex ==> r.gterm[i] == old(r.gterm[i]))
+//@   loop 1 invariant forall(i, i <= r.commitIndex ==> r.gterm[i] == old(r.gterm[i]))
+//@   loop 1 invariant forall(j, spos[ref(c.bufr)] <= j && j < spos[ref(c.bufr)] + req.numEntries && sIdx(ref(c.bufr), j) <= r.commitIndex && sIdx(ref(c.bufr), j) > r.snaps.index ==> sTerm(ref(c.bufr), j) == old(r.gterm[sIdx(ref(c.bufr), j)]))
+//@   loop 1 invariant forall(j, old(spos[ref(c.bufr)]) <= j && j < spos[ref(c.bufr)] && sIdx(ref(c.bufr), j) > r.snaps.index ==> sIdx(ref(c.bufr), j) <= r.lastLogIndex && r.gterm[sIdx(ref(c.bufr), j)] == sTerm(ref(c.bufr), j))
+//@   loop 1 invariant forall(j, old(spos[ref(c.bufr)]) <= j && j < spos[ref(c.bufr)] && sIdx(ref(c.bufr), j) > r.snaps.index && sIdx(ref(c.bufr), j) <= old(r.lastLogIndex) ==> sTerm(ref(c.bufr), j) == old(r.gterm[sIdx(ref(c.bufr), j)])) ==> r.lastLogIndex >= old(r.lastLogIndex) && forall(i, i <= old(r.lastLogIndex) ==> r.gterm[i] == old(r.gterm[i]))
+//@   loop 1 invariant CfgInLog(r.storage)
+//@   loop 1 invariant syncLog ==> index == r.lastLogIndex
+//@   loop 1 invariant !syncLog ==> forall(j, spos[ref(c.bufr)] <= j && j < spos[ref(c.bufr)] + req.numEntries && sIdx(ref(c.bufr), j) <= r.configs.Committed.Index && sIdx(ref(c.bufr), j) > r.snaps.index ==> sTerm(ref(c.bufr), j) == r.gterm[sIdx(ref(c.bufr), j)])
+//@   loop 1 decreases req.numEntries
